@@ -597,4 +597,374 @@ theorem renderCells_display (cw : String → Nat) (caps : Caps) (refresh : Bool)
                 have := e2 (by omega)
                 split <;> omega
 
+/-! ### All rows -/
+
+/-- A terminal row `r` is well formed (describable by a parse) and, unless the frame is a refresh,
+    shows the row `l` of the previous frame. -/
+def RowOk (cw : String → Nat) (caps : Caps) (refresh : Bool) (C : Nat) (r : List DCell) (l : List Cell) : Prop :=
+  ∃ V : List VCell, r = eRow 0 V ∧ V.length = C ∧ (∀ v ∈ V, VOk v) ∧ (refresh = false → V = l.map (phi cw caps))
+
+def RowsOk (cw : String → Nat) (caps : Caps) (refresh : Bool) (C : Nat) : List (List DCell) → Grid → Prop
+  | [], [] => True
+  | r :: rs, l :: ls => RowOk cw caps refresh C r l ∧ RowsOk cw caps refresh C rs ls
+  | _, _ => False
+
+def RowsPost (cw : String → Nat) (caps : Caps) (t0 : Term) (D : List (List DCell)) (R C : Nat) (ns : Grid)
+    (res : Grid × RSt) : Prop :=
+  (run cw t0 res.2.out).grid = D ++ expected cw caps ns ∧
+  (run cw t0 res.2.out).rows = R ∧ (run cw t0 res.2.out).cols = C ∧
+  (run cw t0 res.2.out).bad = none ∧ (run cw t0 res.2.out).pen = shown caps res.2.pen ∧
+  (run cw t0 res.2.out).link = res.2.pen.link ∧ (run cw t0 res.2.out).linkParams = lpOf res.2.pen ∧
+  expected cw caps res.1 = expected cw caps ns
+
+theorem renderRows_display (cw : String → Nat) (caps : Caps) (refresh : Bool) (hsp : cw "20" = 1) (t0 : Term) :
+    ∀ (ns ls : Grid) (row : Nat) (st : RSt) (D Rm : List (List DCell)) (t : Term), run cw t0 st.out = t →
+      ns.length = ls.length → t.grid = D ++ Rm → D.length = row → row + ns.length = t.rows →
+      (∀ r ∈ ns, r.length = t.cols) → (∀ r ∈ ls, r.length = t.cols) →
+      RowsOk cw caps refresh t.cols Rm ls →
+      Fits cw ns → (∀ r ∈ ns, ∀ c ∈ r, c.sixel = false ∧ 0 ≤ c.w ∧ WidthOk cw caps c) →
+      t.bad = none → t.pen = shown caps st.pen → t.link = st.pen.link → t.linkParams = lpOf st.pen →
+      RowsPost cw caps t0 D t.rows t.cols ns (renderRows cw caps refresh row ns ls st) := by
+  intro ns
+  induction ns with
+  | nil =>
+    intro ls row st D Rm t ht hl hg hD hrows hn hlc hok hfit hcells hbad hpen hlink hlp
+    have : ls = [] := by cases ls with
+      | nil => rfl
+      | cons _ _ => simp at hl
+    subst this
+    have : Rm = [] := by cases Rm with
+      | nil => rfl
+      | cons _ _ => simp [RowsOk] at hok
+    subst this
+    subst ht
+    simp only [renderRows]
+    exact ⟨by simpa [expected] using hg, rfl, rfl, hbad, hpen, hlink, hlp, rfl⟩
+  | cons n ns ih =>
+    intro ls row st D Rm t ht hl hg hD hrows hn hlc hok hfit hcells hbad hpen hlink hlp
+    cases ls with
+    | nil => simp at hl
+    | cons l ls =>
+      cases Rm with
+      | nil => simp [RowsOk] at hok
+      | cons r Rm =>
+        obtain ⟨⟨V, hrV, hVlen, hVok, hVref⟩, hok'⟩ := hok
+        have hnl : n.length = t.cols := hn n (by simp)
+        have hll : l.length = t.cols := hlc l (by simp)
+        have hgrow : t.grid[row]? = some ([] ++ sRow 0 0 V) := by
+          rw [hg, ← hD, List.getElem?_append_right (Nat.le_refl _)]
+          simp [hrV, sRow_zero_zero]
+        have hc := renderCells_display cw caps refresh row hsp t0 n l 0 0 false 0 { st with reposition := true } V 0 [] t
+          ht (by rw [hnl, hll]) (by rw [hVlen, hnl]) hVok hgrow rfl (by rw [hnl]; omega)
+          (by simp at hrows; omega)
+          (fun h => ⟨hVref h, fun h' => absurd h' (Nat.lt_irrefl 0), fun _ => rfl⟩)
+          (hfit n (by simp)) (hcells n (by simp))
+          ⟨hbad, hpen, hlink, hlp, by intro h; simp at h⟩
+        simp only [renderRows]
+        generalize renderCells cw caps refresh row 0 0 false 0 n l { st with reposition := true } = rc at hc
+        obtain ⟨l', st'⟩ := rc
+        obtain ⟨g1, r1, c1, b1, p1, k1, q1, e1, len1⟩ := hc
+        simp only at g1 r1 c1 b1 p1 k1 q1 e1 len1
+        have hg1 : (run cw t0 st'.out).grid = (D ++ [expectedRow cw caps 0 n]) ++ Rm := by
+          rw [g1, hg, ← hD]; simp
+        have := ih ls (row + 1) st' (D ++ [expectedRow cw caps 0 n]) Rm (run cw t0 st'.out) rfl
+          (by simpa using hl) hg1 (by simp [hD]) (by rw [r1]; simp at hrows; omega)
+          (by rw [c1]; exact fun r hr => hn r (by simp [hr])) (by rw [c1]; exact fun r hr => hlc r (by simp [hr]))
+          (by rw [c1]; exact hok') (fun r hr => hfit r (by simp [hr])) (fun r hr => hcells r (by simp [hr]))
+          b1 p1 k1 q1
+        rw [r1, c1] at this
+        obtain ⟨a1, a2, a3, a4, a5, a6, a7, a8⟩ := this
+        refine ⟨?_, a2, a3, a4, a5, a6, a7, ?_⟩
+        · rw [a1]; simp [expected]
+        · simp only [expected, List.map_cons] at a8 ⊢
+          rw [a8, e1]
+
+/-! ### Well-formed terminal rows -/
+
+/-- A terminal row is well formed when every continuation cell is owned: a glyph of width `w` is
+    followed by exactly `w - 1` continuation cells (fewer only at the end of the row). `k` =
+    continuation cells still owed. -/
+def WFRow : Nat → List DCell → Prop
+  | _, [] => True
+  | 0, DCell.glyph _ w _ _ _ :: r => 1 ≤ w ∧ WFRow (w - 1) r
+  | 0, DCell.poison :: r => WFRow 0 r
+  | 0, DCell.cont :: _ => False
+  | k + 1, DCell.cont :: r => WFRow k r
+  | _ + 1, DCell.glyph _ _ _ _ _ :: _ => False
+  | _ + 1, DCell.poison :: _ => False
+
+theorem wf_eRow : ∀ (r : List DCell) (k : Nat), WFRow k r →
+    ∃ V : List VCell, r = eRow k V ∧ V.length = r.length ∧ ∀ v ∈ V, VOk v := by
+  intro r
+  induction r with
+  | nil => intro k _; exact ⟨[], by cases k <;> rfl, rfl, by simp⟩
+  | cons x r ih =>
+    intro k h
+    cases k with
+    | zero =>
+      cases x with
+      | glyph g w st lp lk =>
+        obtain ⟨hw, h'⟩ := h
+        obtain ⟨V, e, hl, hv⟩ := ih (w - 1) h'
+        refine ⟨(DCell.glyph g w st lp lk, w - 1) :: V, by simp [eRow, ← e], by simp [hl], ?_⟩
+        intro v hv'
+        rcases List.mem_cons.mp hv' with rfl | hv'
+        · left; exact ⟨g, st, lp, lk, by simp; omega⟩
+        · exact hv v hv'
+      | cont => exact absurd h (by simp [WFRow])
+      | poison =>
+        obtain ⟨V, e, hl, hv⟩ := ih 0 h
+        refine ⟨(DCell.poison, 0) :: V, by simp [eRow, ← e], by simp [hl], ?_⟩
+        intro v hv'
+        rcases List.mem_cons.mp hv' with rfl | hv'
+        · right; exact ⟨rfl, rfl⟩
+        · exact hv v hv'
+    | succ k =>
+      cases x with
+      | glyph g w st lp lk => exact absurd h (by simp [WFRow])
+      | poison => exact absurd h (by simp [WFRow])
+      | cont =>
+        obtain ⟨V, e, hl, hv⟩ := ih k h
+        refine ⟨(DCell.poison, 0) :: V, by simp [eRow, ← e], by simp [hl], ?_⟩
+        intro v hv'
+        rcases List.mem_cons.mp hv' with rfl | hv'
+        · right; exact ⟨rfl, rfl⟩
+        · exact hv v hv'
+
+theorem eRow_wf : ∀ (V : List VCell) (k : Nat), (∀ v ∈ V, VOk v) → WFRow k (eRow k V) := by
+  intro V
+  induction V with
+  | nil => intro k _; cases k <;> simp [eRow, WFRow]
+  | cons v V ih =>
+    intro k h
+    have h' : ∀ x ∈ V, VOk x := fun x hx => h x (by simp [hx])
+    cases k with
+    | succ k => simp only [eRow, WFRow]; exact ih k h'
+    | zero =>
+      simp only [eRow]
+      rcases h v (by simp) with ⟨g, st, lp, lk, e⟩ | ⟨e1, e2⟩
+      · rw [e]; simp only [WFRow]; exact ⟨by omega, by simpa using ih v.2 h'⟩
+      · rw [e1, e2]; simp only [WFRow]; exact ih 0 h'
+
+/-- What the application's row means is a well-formed terminal row. -/
+theorem expectedRow_wf (cw : String → Nat) (caps : Caps) (l : List Cell) : WFRow 0 (expectedRow cw caps 0 l) := by
+  rw [← eRow_map_phi]
+  apply eRow_wf
+  intro v hv
+  obtain ⟨c, _, rfl⟩ := List.mem_map.mp hv
+  exact phi_ok cw caps c
+
+/-! ### Tokens of the flush prologue -/
+
+def PreTok : Tok → Prop
+  | .decset _ | .decrst _ | .pointer _ => True
+  | _ => False
+
+theorem step_preTok (tw : String → Nat) (t : Term) (k : Tok) (h : PreTok k) :
+    (step tw t k).grid = t.grid ∧ (step tw t k).bad = t.bad ∧ (step tw t k).rows = t.rows ∧
+    (step tw t k).cols = t.cols ∧ (step tw t k).pen = t.pen ∧ (step tw t k).link = t.link ∧
+    (step tw t k).linkParams = t.linkParams := by
+  cases k <;> simp only [PreTok] at h <;> simp only [step]
+  case decset n => repeat' split
+                   all_goals simp
+  case decrst n => repeat' split
+                   all_goals simp
+  all_goals simp
+
+theorem run_preToks (tw : String → Nat) (toks : List Tok) (h : ∀ k ∈ toks, PreTok k) : ∀ (t : Term),
+    (run tw t toks).grid = t.grid ∧ (run tw t toks).bad = t.bad ∧ (run tw t toks).rows = t.rows ∧
+    (run tw t toks).cols = t.cols ∧ (run tw t toks).pen = t.pen ∧ (run tw t toks).link = t.link ∧
+    (run tw t toks).linkParams = t.linkParams := by
+  induction toks with
+  | nil => intro t; simp [run]
+  | cons k ks ih =>
+    intro t
+    obtain ⟨a1, a2, a3, a4, a5, a6, a7⟩ := step_preTok tw t k (h k (by simp))
+    obtain ⟨b1, b2, b3, b4, b5, b6, b7⟩ := ih (fun k' hk' => h k' (by simp [hk'])) (step tw t k)
+    simp only [run, List.foldl_cons] at *
+    exact ⟨b1.trans a1, b2.trans a2, b3.trans a3, b4.trans a4, b5.trans a5, b6.trans a6, b7.trans a7⟩
+
+/-! ### The whole frame -/
+
+theorem rowsOk_of (cw : String → Nat) (caps : Caps) (refresh : Bool) (C : Nat) :
+    ∀ (G : List (List DCell)) (ls : Grid), G.length = ls.length →
+      (∀ r ∈ G, r.length = C) → (∀ l ∈ ls, l.length = C) →
+      (refresh = false → G = expected cw caps ls) → (refresh = true → ∀ r ∈ G, WFRow 0 r) →
+      RowsOk cw caps refresh C G ls := by
+  intro G
+  induction G with
+  | nil => intro ls hl _ _ _ _; cases ls with
+    | nil => trivial
+    | cons _ _ => simp at hl
+  | cons r G ih =>
+    intro ls hl hG hL hag hwf
+    cases ls with
+    | nil => simp at hl
+    | cons l ls =>
+      refine ⟨?_, ih ls (by simpa using hl) (fun r hr => hG r (by simp [hr])) (fun l hl' => hL l (by simp [hl']))
+        (fun h => by have := hag h; simp only [expected, List.map_cons, List.cons.injEq] at this; exact this.2)
+        (fun h r hr => hwf h r (by simp [hr]))⟩
+      cases refresh with
+      | false =>
+        have := hag rfl
+        simp only [expected, List.map_cons, List.cons.injEq] at this
+        refine ⟨l.map (phi cw caps), by rw [this.1, eRow_map_phi], by simp [hL l (by simp)], ?_, fun _ => rfl⟩
+        intro v hv
+        obtain ⟨c, _, rfl⟩ := List.mem_map.mp hv
+        exact phi_ok cw caps c
+      | true =>
+        obtain ⟨V, e, hlen, hv⟩ := wf_eRow r 0 (hwf rfl r (by simp))
+        exact ⟨V, e, by rw [hlen]; exact hG r (by simp), hv, fun h => by simp at h⟩
+
+theorem frame_core (cw : String → Nat) (hsp : cw "20" = 1) (f : Frame) (t : Term) (X Y pre : List Tok)
+    (hX : ∀ k ∈ X, PreTok k) (hY : ∀ k ∈ Y, NoPrint t.rows t.cols k)
+    (hpre : pre = [] ∨ ∃ s, pre = [Tok.pointer s])
+    (hpen : t.pen = TStyle.reset) (hlink : t.link = "") (hlp : t.linkParams = "") (hbad : t.bad = none)
+    (hlen : t.grid.length = f.next.length) (hlast : f.last.length = f.next.length)
+    (hgc : ∀ r ∈ t.grid, r.length = t.cols) (hnc : ∀ r ∈ f.next, r.length = t.cols)
+    (hlc : ∀ r ∈ f.last, r.length = t.cols) (hrows : t.rows = f.next.length) (hfits : Fits cw f.next)
+    (hcells : ∀ r ∈ f.next, ∀ c ∈ r, c.sixel = false ∧ 0 ≤ c.w ∧ WidthOk cw f.caps c)
+    (hagree : f.refresh = false → t.grid = expected cw f.caps f.last)
+    (hwf : f.refresh = true → ∀ r ∈ t.grid, WFRow 0 r) :
+    (run cw t (X ++ (renderRows cw f.caps f.refresh 0 f.next f.last { out := pre }).2.out ++ Y)).bad = none ∧
+    (run cw t (X ++ (renderRows cw f.caps f.refresh 0 f.next f.last { out := pre }).2.out ++ Y)).grid
+      = expected cw f.caps f.next ∧
+    expected cw f.caps (renderRows cw f.caps f.refresh 0 f.next f.last { out := pre }).1 = expected cw f.caps f.next ∧
+    (run cw t (X ++ (renderRows cw f.caps f.refresh 0 f.next f.last { out := pre }).2.out ++ Y)).linkParams
+      = lpRun (lpOf (renderRows cw f.caps f.refresh 0 f.next f.last { out := pre }).2.pen) Y := by
+  obtain ⟨x1, x2, x3, x4, x5, x6, x7⟩ := run_preToks cw X hX t
+  have hpt : ∀ k ∈ pre, PreTok k := by
+    rcases hpre with h | ⟨s, h⟩ <;> subst h <;> simp [PreTok]
+  obtain ⟨y1, y2, y3, y4, y5, y6, y7⟩ := run_preToks cw pre hpt (run cw t X)
+  have hpost := renderRows_display cw f.caps f.refresh hsp (run cw t X) f.next f.last 0 { out := pre } []
+    (run cw (run cw t X) pre).grid (run cw (run cw t X) pre) rfl hlast.symm (by simp) rfl
+    (by rw [y3, x3, hrows]; simp) (by rw [y4, x4]; exact hnc) (by rw [y4, x4]; exact hlc)
+    (by rw [y4, x4, y1, x1]; exact rowsOk_of cw f.caps f.refresh t.cols t.grid f.last (by rw [hlen, hlast]) hgc hlc hagree hwf)
+    hfits hcells (by rw [y2, x2, hbad]) (by rw [y5, x5, hpen, shown_default]) (by rw [y6, x6, hlink])
+    (by rw [y7, x7, hlp]; rfl)
+  generalize renderRows cw f.caps f.refresh 0 f.next f.last { out := pre } = res at hpost
+  obtain ⟨p1, p2, p3, p4, p5, p6, p7, p8⟩ := hpost
+  rw [y3, x3] at p2
+  rw [y4, x4] at p3
+  rw [List.append_assoc, run_append, run_append]
+  obtain ⟨z1, z2, z3, z4, z5⟩ := run_noPrint cw Y (run cw (run cw t X) res.2.out) (by rw [p2, p3]; exact hY)
+  refine ⟨by rw [z2, p4], by rw [z1, p1]; rfl, p8, by rw [z5, p7]⟩
+
+theorem showCursor_noPrint (R C : Nat) (c : CursorState)
+    (h : (0 ≤ c.row ∧ c.row < R) ∧ (0 ≤ c.col ∧ c.col < C)) : ∀ k ∈ showCursorToks c, NoPrint R C k := by
+  intro k hk
+  simp only [showCursorToks, List.mem_cons, List.not_mem_nil, or_false] at hk
+  rcases hk with rfl | rfl | rfl
+  · trivial
+  · simp only [NoPrint]; omega
+  · trivial
+
+theorem showCursor_lp (c : CursorState) (p : String) : lpRun p (showCursorToks c) = p := by
+  simp [showCursorToks, lpRun, lpStep]
+
+/-- The cursor-only branch of `Flush`. -/
+def cursorOnly (cn cl : CursorState) : List Tok :=
+  if ¬ cn.visible ∧ cl.visible then [.decrst 25]
+  else if ¬ cn.visible then []
+  else if cn.row ≠ cl.row then showCursorToks cn
+  else if cn.col ≠ cl.col then showCursorToks cn
+  else if cn.style ≠ cl.style then showCursorToks cn
+  else []
+
+theorem cursorOnly_props (R C : Nat) (cn cl : CursorState)
+    (hcur : cn.visible = true → (0 ≤ cn.row ∧ cn.row < R) ∧ (0 ≤ cn.col ∧ cn.col < C)) :
+    (∀ k ∈ cursorOnly cn cl, NoPrint R C k) ∧ ∀ p, lpRun p (cursorOnly cn cl) = p := by
+  unfold cursorOnly
+  by_cases hv : cn.visible = true
+  · simp only [hv, not_true_eq_false, false_and, if_false]
+    have h1 := showCursor_noPrint R C cn (hcur hv)
+    have h2 := showCursor_lp cn
+    split
+    · exact ⟨h1, h2⟩
+    · split
+      · exact ⟨h1, h2⟩
+      · split
+        · exact ⟨h1, h2⟩
+        · exact ⟨by simp, fun _ => rfl⟩
+  · have hv' : cn.visible = false := by simpa using hv
+    simp only [hv', Bool.false_eq_true, not_false_eq_true, true_and, if_true]
+    split
+    · refine ⟨?_, fun _ => rfl⟩
+      intro k hk; simp at hk; subst hk; trivial
+    · exact ⟨by simp, fun _ => rfl⟩
+
+/-- Shape of the tokens of one frame: prologue, the cell-loop output, and an epilogue that does
+    not print and leaves no hyperlink parameters behind. -/
+theorem frame_shape (cw : String → Nat) (f : Frame) (R C : Nat)
+    (hcur : f.cursorNext.visible = true →
+      (0 ≤ f.cursorNext.row ∧ f.cursorNext.row < R) ∧ (0 ≤ f.cursorNext.col ∧ f.cursorNext.col < C)) :
+    ∃ (pre X Y : List Tok), (pre = [] ∨ ∃ s, pre = [Tok.pointer s]) ∧
+      (renderFrame cw f).1 = (renderRows cw f.caps f.refresh 0 f.next f.last { out := pre }).1 ∧
+      (renderFrame cw f).2 = X ++ (renderRows cw f.caps f.refresh 0 f.next f.last { out := pre }).2.out ++ Y ∧
+      (∀ k ∈ X, PreTok k) ∧ (∀ k ∈ Y, NoPrint R C k) ∧
+      lpRun (lpOf (renderRows cw f.caps f.refresh 0 f.next f.last { out := pre }).2.pen) Y = "" := by
+  refine ⟨if f.shapeLast ≠ f.shapeNext then [Tok.pointer f.shapeNext] else [], ?_⟩
+  have hpre : (if f.shapeLast ≠ f.shapeNext then [Tok.pointer f.shapeNext] else []) = [] ∨
+      ∃ s, (if f.shapeLast ≠ f.shapeNext then [Tok.pointer f.shapeNext] else []) = [Tok.pointer s] := by
+    split
+    · exact Or.inr ⟨_, rfl⟩
+    · exact Or.inl rfl
+  unfold renderFrame renderBody
+  simp only
+  generalize renderRows cw f.caps f.refresh 0 f.next f.last
+    { out := if f.shapeLast ≠ f.shapeNext then [Tok.pointer f.shapeNext] else [] } = rr
+  obtain ⟨last', st⟩ := rr
+  simp only
+  unfold flush
+  by_cases hemp : (st.out ++ (if st.pen.link ≠ "" then [Tok.osc8 "" ""] else []) ++
+      (if f.cursorNext.visible = true ∧ ¬ f.cursorLast.visible = true then showCursorToks f.cursorNext else [])).isEmpty = true
+  · simp only [hemp, if_true]
+    have h0 := hemp
+    simp only [List.isEmpty_iff, List.append_eq_nil_iff] at h0
+    obtain ⟨⟨ho, hcl⟩, _⟩ := h0
+    have hlk : st.pen.link = "" := by
+      by_cases h : st.pen.link = ""
+      · exact h
+      · simp [h] at hcl
+    obtain ⟨c1, c2⟩ := cursorOnly_props R C f.cursorNext f.cursorLast hcur
+    refine ⟨[], cursorOnly f.cursorNext f.cursorLast, hpre, trivial, by rw [ho]; rfl, by simp, c1, ?_⟩
+    rw [c2]; simp [lpOf, hlk]
+  · simp only [hemp, Bool.false_eq_true, if_false]
+    refine ⟨(if f.cursorLast.visible = true then [Tok.decrst 25] else []) ++
+        (if f.caps.sync = true then [Tok.decset 2026] else []),
+      (if st.pen.link ≠ "" then [Tok.osc8 "" ""] else []) ++
+      (if f.cursorNext.visible = true ∧ ¬ f.cursorLast.visible = true then showCursorToks f.cursorNext else []) ++
+      [Tok.sgr []] ++
+      (if f.cursorNext.visible = true ∧ f.cursorLast.visible = true then showCursorToks f.cursorNext else []) ++
+      (if f.caps.sync = true then [Tok.decrst 2026] else []), hpre, trivial, by simp only [List.append_assoc], ?_, ?_, ?_⟩
+    · intro k hk
+      rcases List.mem_append.mp hk with h | h <;> split at h <;> simp at h <;> subst h <;> trivial
+    · intro k hk
+      simp only [List.mem_append] at hk
+      rcases hk with (((h | h) | h) | h) | h
+      · split at h <;> simp at h
+        subst h; trivial
+      · split at h
+        · rename_i hv; exact showCursor_noPrint R C _ (hcur hv.1) k h
+        · simp at h
+      · simp at h; subst h; trivial
+      · split at h
+        · rename_i hv; exact showCursor_noPrint R C _ (hcur hv.1) k h
+        · simp at h
+      · split at h <;> simp at h
+        subst h; trivial
+    · have hstep : ∀ (p : String) (a b : List Tok), lpRun p (a ++ b) = lpRun (lpRun p a) b := by
+        intro p a b; simp [lpRun, List.foldl_append]
+      have hclose : lpRun (lpOf st.pen) (if st.pen.link ≠ "" then [Tok.osc8 "" ""] else []) = "" := by
+        by_cases h : st.pen.link = ""
+        · simp [h, lpOf, lpRun]
+        · simp [h, lpRun, lpStep]
+      have hshow : ∀ (c : Prop) [Decidable c] (p : String),
+          lpRun p (if c then showCursorToks f.cursorNext else []) = p := by
+        intro c _ p; split
+        · exact showCursor_lp _ _
+        · rfl
+      rw [hstep, hstep, hstep, hstep, hclose, hshow, hshow]
+      split <;> simp [lpRun, lpStep]
+
 end VaxisModel.Lemmas.RenderDisplay
